@@ -1588,11 +1588,17 @@ def typed_routes(ctx: Ctx, out: Outcome):
         c = impl_ctx(year)
         exact = Fraction(Decimal(p)) * py_mag(K_, ta) / (Fraction(Decimal(q)) * py_mag(K_, tb))
         case = {"block": "Q", "year": year, "a": ta, "b": tb, "sa": sa, "sb": sb, "p": p, "q": q}
-        route = rng.choice(["QQ", "Qs", "sQ"])
+        route = rng.choice(["QQ", "Qs", "sQ", "Fs", "Fs"])
         try:
             with warnings.catch_warnings():
                 warnings.simplefilter("ignore")
-                qa = float(p) * c.ureg.parse_expression(sa) if route[0] == "Q" else f"{p}*({sa})"
+                if route[0] == "F":
+                    # the quantity was made by ANOTHER context (the default singleton or the other CODATA set): the factor asked of
+                    # context c is c's factor all the same — the conversion belongs to the context it is asked of
+                    other = rng.choice([qcel.constants, impl_ctx(2014 if year == 2018 else 2018)])
+                    qa = float(p) * other.ureg.parse_expression(sa)
+                else:
+                    qa = float(p) * c.ureg.parse_expression(sa) if route[0] == "Q" else f"{p}*({sa})"
                 qb = float(q) * c.Quantity(sb) if route[1] == "Q" else f"{q}*({sb})"
                 r = ("ok", float(c.conversion_factor(qa, qb)))
         except Exception as e:  # noqa
